@@ -271,6 +271,10 @@ func (i ItemCollection) Equals(with Item) bool {
 			return nil
 		}
 		for _, it := range i {
+			if IsNil(it) {
+				// nil members can not be looked up
+				continue
+			}
 			if lnk := it.GetLink(); len(lnk) > 0 && w.Contains(lnk) {
 				continue
 			}
